@@ -8,8 +8,9 @@
 (* small domains), each call on a fresh instance, on the module and on a        *)
 (* syntactically different equivalent (a nop in front of every body).           *)
 (* TLC evaluates McCases once and writes it (with the expectations `exp`) to    *)
-(* the file MC_OUT; Wasm_MC.tla model-checks Wasm.tla over it.  (Binding the    *)
-(* TLA+ value directly through INSTANCE makes TLC rebuild it on every access.)  *)
+(* the file MC_OUT; Wasm_MC.tla model-checks Wasm.tla over it.  (TLC rebuilds   *)
+(* such a large TLA+ value on every access when it is bound to the machine      *)
+(* directly; a deserialised value is kept.)                                     *)
 EXTENDS Words, FiniteSets, TLC, SequencesExt, Json, IOUtils
 
 (* ---- instruction constructors ------------------------------------------------ *)
@@ -193,7 +194,7 @@ Min32 == <<0, 0, 0, 128>>
 Max32 == <<255, 255, 255, 127>>
 CONSTANT Wide
 D32 == IF Wide THEN {W32(0), W32(1), W32(2), W32(7), W32(-1), W32(-8), W32(31), W32(32), W32(33), W32(255), W32(65536), Min32, Max32}
-       ELSE {W32(0), W32(1), W32(-1), W32(33), Min32, Max32}
+       ELSE {W32(0), W32(-1), W32(33), Min32}
 S32 == {W32(0), W32(1), W32(-1), W32(33), Min32, Max32}
 Zero == <<W32(0)>>
 Ok(r) == [status |-> "ok", ret |-> r]
@@ -218,7 +219,7 @@ AllCalls ==
     \cup Pairs("bits", D32, ZeroLaw) \cup Pairs("counts", D32, ZeroLaw) \cup Pairs("cmps", D32, ZeroLaw)
     \cup Pairs("ext", D32, ZeroLaw) \cup Pairs("conv", D32, ZeroLaw) \cup Pairs("mem", D32, ZeroLaw)
     \cup {MkCall("fac", <<WFromNat(n, 8)>>, Ok(<<WFromNat(Fac(n), 8)>>)) : n \in 0..8}
-    \cup {MkCall("fib", <<W32(n)>>, Ok(<<W32(Fib(n))>>)) : n \in 0..7}
+    \cup {MkCall("fib", <<W32(n)>>, Ok(<<W32(Fib(n))>>)) : n \in 0..6}
     \cup {MkCall("brt", <<W32(k), W32(v)>>,
                Ok(<<W32(CASE k \in {0, 4} -> (v + 10) * 20 - 3 [] k = 1 -> v * 20 - 3 [] k = 2 -> v - 3 [] OTHER -> v)>>))
           : k \in -1..6, v \in {0, 5}}
@@ -238,10 +239,49 @@ AllCalls ==
     \cup {MkCall("usemulti", <<W32(v)>>, Ok(<<W32((v + 1) - 2 * v)>>)) : v \in {0, 5, -3}}
     \cup {MkCall("multi", <<W32(v)>>, Ok(<<W32(v + 1), W32(2 * v)>>)) : v \in {0, 5, -3}}
 
-McCases == SetToSeq({[id |-> c.fn, mods |-> Mods, calls |-> <<c>>, ext |-> ExtStub, fuel |-> 900] : c \in AllCalls})
+McCases == [mods |-> Mods,
+            cases |-> SetToSeq({[id |-> c.fn, mods |-> <<1, 2>>, calls |-> <<c>>, ext |-> ExtStub, fuel |-> 600] : c \in AllCalls})]
 
-ASSUME JsonSerialize(IOEnv.MC_OUT, McCases)
-ASSUME PrintT(<<"cases", Len(McCases)>>)
+(* ---- calibration of the module equivalence of Wasm_Eq.tla ------------------------------------ *)
+\* the same module with one more entry in front of the type section and every type reference shifted
+ShiftIns(x) == IF x.op = "call_indirect" THEN [x EXCEPT !.type = @ + 1]
+               ELSE IF x.op \in {"block", "loop", "if"} /\ x.bt.k = "idx" THEN [x EXCEPT !.bt.x = @ + 1]
+               ELSE x
+ShiftTypes(m) ==
+    [m EXCEPT !.types = <<[params |-> <<TI64, TI64>>, results |-> <<>>]>> \o @,
+              !.imports = Mk([k \in 1..Len(@) |-> [@[k] EXCEPT !.type = @ + 1]]),
+              !.funcs = Mk([k \in 1..Len(@) |-> [@[k] EXCEPT !.type = @ + 1,
+                                                              !.body = Mk([j \in 1..Len(@) |-> ShiftIns(@[j])])]])]
+M1 == Mods[1]
+EqRec(key, b, expect) == [key |-> key, law |-> "module", ok |-> TRUE, a |-> M1, b |-> b, expect |-> expect]
+EqCases == <<
+    EqRec("same", M1, TRUE),
+    EqRec("types shifted", ShiftTypes(M1), TRUE),
+    EqRec("nop inserted", Mods[2], FALSE),
+    EqRec("type lost", [M1 EXCEPT !.types = SubSeq(@, 1, Len(@) - 1)], FALSE),
+    EqRec("signature of a function", [M1 EXCEPT !.funcs[3].type = 1], FALSE),
+    EqRec("local type", [M1 EXCEPT !.funcs[12].locals = <<TI32>>], FALSE),
+    EqRec("constant in a body", [M1 EXCEPT !.funcs[15].body[2] = K32(2)], FALSE),
+    EqRec("memory offset", [M1 EXCEPT !.funcs[19].body[2] = MA(TI32, "load", 65531)], FALSE),
+    EqRec("call_indirect type", [M1 EXCEPT !.funcs[18].body[3] = iCallInd(0)], FALSE),
+    EqRec("block type", [M1 EXCEPT !.funcs[26].body[18] = Blk("loop", BI(0))], FALSE),
+    EqRec("import name", [M1 EXCEPT !.imports[1].name = "g"], FALSE),
+    EqRec("table limits", [M1 EXCEPT !.tables[1].max = 9], FALSE),
+    EqRec("memory limits", [M1 EXCEPT !.mems[1].max = -1], FALSE),
+    EqRec("global mutability", [M1 EXCEPT !.globals[3].mut = TRUE], FALSE),
+    EqRec("global initialiser", [M1 EXCEPT !.globals[2].init = <<K32(2)>>], FALSE),
+    EqRec("export name", [M1 EXCEPT !.exports[1].name = "x"], FALSE),
+    EqRec("export index", [M1 EXCEPT !.exports[2].idx = 1], FALSE),
+    EqRec("start", [M1 EXCEPT !.start = -1], FALSE),
+    EqRec("element reference", [M1 EXCEPT !.elems[1].refs = <<15, 17, 16>>], FALSE),
+    EqRec("element mode", [M1 EXCEPT !.elems[2].mode = "declarative"], FALSE),
+    EqRec("data byte", [M1 EXCEPT !.datas[1].bytes = <<3, 4, 6>>], FALSE),
+    EqRec("data offset", [M1 EXCEPT !.datas[2].offset = <<K32(65534)>>], FALSE),
+    EqRec("data lost", [M1 EXCEPT !.datas = SubSeq(@, 1, 1)], FALSE) >>
+
+\* an output named "-" is not wanted
+ASSUME IF IOEnv.MC_OUT = "-" THEN TRUE ELSE JsonSerialize(IOEnv.MC_OUT, McCases)
+ASSUME IF IOEnv.EQ_OUT = "-" THEN TRUE ELSE JsonSerialize(IOEnv.EQ_OUT, EqCases)
 VARIABLE x
 Init == x = 0
 Next == x' = x
